@@ -8,6 +8,8 @@ What is tied (DESIGN §1.3 G, §4 C14):
   `C14.record_mirrored` / `C14.record_keys`.
 * the keyword arguments of the `json.dumps` call and the string added to its result
   (`defaultIsStr`, `ensureAscii`, `suffix`).
+* `_serialize_record` is a `@staticmethod` whose body reads only its arguments (`serializeIsPure`): a
+  per-handler cache of serialised parts (stale level icon after `logger.level(name, icon=…)`) breaks it.
 * shape checks: `emit` serialises the already formatted text and nothing reassigns it afterwards
   (`serializeAfterFormatting`); `add()`'s default for `colorize` when `serialize` is set
   (`colorizeDefault`).
@@ -100,6 +102,13 @@ def generate():
         fn = find_func(tree, "_serialize_record", cls="Handler")
         if [a.arg for a in fn.args.args] != ["text", "record"]:
             raise Unsupported("_serialize_record arguments: %r" % [a.arg for a in fn.args.args])
+        # a pure function of its two arguments: static, and no name read other than these
+        if [ast.unparse(d) for d in fn.decorator_list] != ["staticmethod"]:
+            raise Unsupported("_serialize_record is not a @staticmethod: %r" % [ast.unparse(d) for d in fn.decorator_list])
+        allowed = {"text", "record", "exception", "serializable", "json", "str", "bool", "None"}
+        read = {n.id for b in fn.body for n in ast.walk(b) if isinstance(n, ast.Name) and isinstance(n.ctx, ast.Load)}
+        if not read <= allowed:
+            raise Unsupported("_serialize_record reads other names: %r" % sorted(read - allowed))
         st = fn.body
         if len(st) != 4:
             raise Unsupported("_serialize_record has %d statements, expected 4" % len(st))
@@ -151,6 +160,9 @@ def generate():
         body += "/-- `json.dumps(..., default=str)` -/\ndef defaultIsStr : Bool := %s\n" % ("true" if default_is_str else "false")
         body += "/-- `json.dumps(..., ensure_ascii=…)` (json's default is True) -/\ndef ensureAscii : Bool := %s\n" % (
             "true" if ensure_ascii else "false")
+        body += "/-- `_serialize_record` is a @staticmethod of (text, record) reading no other name (AST check):\n"
+        body += "    nothing a handler has seen before can influence what it serialises -/\n"
+        body += "def serializeIsPure : Bool := true\n"
         body += "/-- what is appended to the dumped object -/\ndef suffix : Py.Str := %s\n\n" % lean_chars(suffix)
 
         # ---- emit: serialisation is applied to the formatted text, last
